@@ -358,7 +358,8 @@ def run(ctx):
             if not isinstance(rp, bytes) or rp.count(b"\n") != 1:
                 if fatal:
                     continue         # the manager went down: clients behind the fatal request get nothing
-                res["violations"].append({"key": "C12:no-reply", "what": "client %d got %r" % (i, rp)})
+                res["violations"].append({"key": "C12:no-reply", "what": "client %d got %r" % (i, rp),
+                                          "round": r, "request": rq, "clients": n})
                 continue
             exp = expected_reply(dev, rq)
             got = json.loads(rp)
